@@ -215,6 +215,76 @@ def shard_large(arg):
     return st
 
 
+def serpentine(h, w):
+    """one long loop-free diagonal chain hanging off the border cell (0, 0): zig-zag passes along the row
+    pairs (1,2), (4,5), (7,8), .. joined by single turn cells; covers more than a quarter of a big board"""
+    cells = [(0, 0)]
+    y0, x, d = 1, 1, 1
+    while y0 + 1 <= h - 2:
+        top = True
+        while (x <= w - 3 if d == 1 else x >= 2) and 1 <= x <= w - 2:
+            cells.append((y0 if top else y0 + 1, x))
+            top = not top
+            x += d
+        x -= d
+        if cells[-1][0] != y0 + 1:
+            cells.pop()
+            x -= d
+        if y0 + 4 > h - 2 or not (1 <= x + d <= w - 2):
+            break
+        cells.append((y0 + 2, x + d))
+        d = -d
+        y0 += 3
+    return cells
+
+
+def shard_serpentine(arg):
+    """boards of 150-330 cells: the serpentine, its prefixes, mirror images and transposes, and the same
+    with one more cell that touches the border again or closes a loop; grid form, all cells pinned,
+    decided by find_answer; the pattern's validity comes from the reference definition"""
+    h, w, variant = arg
+    st = Stats()
+    from cspuz import Solver
+
+    tr = variant & 1
+    hh, ww = (w, h) if tr else (h, w)
+    base = serpentine(hh, ww)
+    pats = [("full", base), ("prefix", base[:len(base) * 2 // 3]), ("detached", base[1:])]
+    y, x = base[-1]
+    pats.append(("extra-cell", base + [(y + 1, x + 1)]))
+    pats.append(("second-border-contact", base + [(hh - 1, base[-1][1] + (1 if (hh - 1 - base[-1][0]) % 2 else 0))]))
+    for name, cells in pats:
+        cells = [(y_, x_) for y_, x_ in cells if 0 <= y_ < hh and 0 <= x_ < ww]
+        if variant & 2:
+            cells = [(hh - 1 - y_, x_) for y_, x_ in cells]
+        if variant & 4:
+            cells = [(y_, ww - 1 - x_) for y_, x_ in cells]
+        if tr:
+            cells = [(x_, y_) for y_, x_ in cells]
+        act = set(cells)
+        pat = [(y_, x_) in act for y_ in range(h) for x_ in range(w)]
+        want = reference(h * w, graphref.grid_edges(h, w), pat, True)
+        case = dict(grid=[h, w], segmenting=True, form="grid", serpentine=name, variant=variant, active=len(act))
+        st.case(canon=case, nontrivial=True, classes=["serpentine", "serpentine:" + ("valid" if want else "invalid")] +
+                (["serpentine:valid>quarter"] if want and len(act) * 4 > h * w + 3 else []),
+                sample=case)
+        s = Solver()
+        arr = s.bool_array((h, w))
+        try:
+            post(case, s, arr)
+            for y_ in range(h):
+                for x_ in range(w):
+                    s.ensure(arr[y_, x_] if (y_, x_) in act else ~arr[y_, x_])
+            got = s.find_answer()
+        except Exception as e:
+            st.fail(Failure("serpentine-raises|" + repo_frame_sig(e), observed=str(e)[:150]), case, "c08.serpentine")
+            continue
+        if got != want:
+            st.fail(Failure(("admits-invalid|" if got else "rejects-valid|") + tag(case) + "|serpentine",
+                            observed=got, expected=want), case, "c08.serpentine")
+    return st
+
+
 def run(ctx):
     ctx.rule = (
         "every labelled simple graph on 1..4 (thorough 5) vertices, Hypothesis-drawn multigraphs up to 7 "
@@ -251,7 +321,12 @@ def run(ctx):
         [(4, 6), (6, 4), (5, 5), (4, 7), (7, 4), (5, 7), (7, 5), (6, 6), (4, 9), (9, 4), (7, 7), (6, 8), (8, 8)]
     for r in pmap(shard_large, [(ctx.seed * 1000 + 70 + i, [sh], 160 if quick else 1500) for i, sh in enumerate(big)]):
         ctx.stats.merge(r)
+    serp = [(10, 25), (25, 10), (7, 33), (13, 23)] if quick else [(10, 25), (25, 10), (7, 33), (13, 23), (10, 16), (16, 20), (11, 30), (8, 24)]
+    for r in pmap(shard_serpentine, [(h_, w_, v) for (h_, w_) in serp for v in ((0, 3, 5, 6) if quick else range(8))]):
+        ctx.stats.merge(r)
     cl = ctx.stats.classes
+    ctx.floor("valid serpentines longer than a quarter of the board", cl["serpentine:valid>quarter"], 6)
+    ctx.floor("invalid serpentine variants", cl["serpentine:invalid"], 8)
     ctx.floor("large-board patterns that are valid", cl["large:valid"], 100)
     ctx.floor("patterns on single-row/column grids", cl["single-row-or-column"], 5000)
     ctx.floor("e2e cases", cl["e2e"], 300)
@@ -261,6 +336,12 @@ def replay(ctx, rep):
     case = rep["case"]
     if rep.get("check") == "c08.e2e":
         e2e_case(case)
+        return
+    if rep.get("check") == "c08.serpentine":
+        st = shard_serpentine((case["grid"][0], case["grid"][1], case["variant"]))
+        if st.failures:
+            sig, d = sorted(st.failures.items())[0]
+            raise Failure(sig, observed=d["observed"], expected=d["expected"])
         return
     st = Stats()
     c = dict(case)
